@@ -976,3 +976,74 @@ func c09CtxErrRecorded(c *Ctx) {
 		c.Fail(rule, "anchor", token.NoPos, "no recording of ctx.Err() found in Parallelize")
 	}
 }
+
+// ---- C16/C06 (after round-6 seed C16-p) ----------------------------------------------------------------------------
+
+// c16RebaseKeepsAll (REBASE-KEEPS-ALL): ignore and ignore_only paths of a buf.yaml are re-based onto the module they
+// belong to. A path is left out for one reason only: it lies outside that module (and the caller allows that). A path
+// that IS the module directory - `ignore_only: {RULE: [proto]}` for the module at `proto` - re-bases to "." and means
+// "the whole module"; dropping it loses the entry on the first read. In the re-basing function, the branches that
+// pass over a path ask about containment (or the caller's flag) and nothing else.
+func c16RebaseKeepsAll(c *Ctx) {
+	const rule = "REBASE-KEEPS-ALL"
+	c.Rule(rule, "re-basing lint/breaking paths onto a module drops a path only because it lies outside the module", 1)
+	p := c.P
+	pk := p.Pkg("private/bufpkg/bufconfig")
+	if pk == nil {
+		c.Fail(rule, "anchor", token.NoPos, "bufconfig not found")
+		return
+	}
+	n := 0
+	for _, sf := range p.SSAFuncsOf([]*packages.Package{pk}) {
+		// the function: a []string parameter, a []string result, a call of normalpath.Rel whose result is appended in a loop
+		var app *ssa.Call
+		for _, call := range callsIn(sf) {
+			if !isBuiltinCall(call.Call, "append") {
+				continue
+			}
+			if dependsOnCall(call.Call.Args[len(call.Call.Args)-1], func(cc *ssa.CallCommon) bool {
+				return calleeIs(staticCalleeObj(cc), "private/pkg/normalpath", "Rel")
+			}) {
+				if cv, ok := call.Instr.(*ssa.Call); ok {
+					app = cv
+				}
+			}
+		}
+		if app == nil {
+			continue
+		}
+		h, decisions := loopSkipDecisions(sf, app.Block())
+		if h == nil {
+			continue
+		}
+		n++
+		var bad []string
+		for _, i := range decisions {
+			okCond := false
+			sliceBack(i.Cond, func(x ssa.Value) bool {
+				switch t := x.(type) {
+				case *ssa.Call:
+					if o := staticCalleeObj(&t.Call); o != nil && (o.Name() == "EqualsOrContainsPath" || o.Name() == "ContainsPath") {
+						okCond = true
+					}
+				case *ssa.Parameter:
+					if isBoolType(t.Type()) {
+						okCond = true
+					}
+				}
+				return true
+			})
+			if !okCond {
+				at := i.Cond.Pos()
+				for q := len(i.Block().Instrs) - 1; q >= 0 && at == token.NoPos; q-- {
+					at = i.Block().Instrs[q].Pos()
+				}
+				bad = append(bad, p.Pos(at))
+			}
+		}
+		c.Ob(rule, ssaFuncName(sf)+"/skips", app.Pos(), len(bad) == 0, true, "%d branch(es) pass over a path; those that do not ask about containment: %v", len(decisions), bad)
+	}
+	if n == 0 {
+		c.Fail(rule, "anchor", token.NoPos, "no path re-basing loop found in bufconfig")
+	}
+}
